@@ -347,46 +347,57 @@ def c15(rng, tier, repo):
                     if len(samples) < 2:
                         samples.append({'layout': ''.join(layout), 'ignore': ign, 'allow_compressed': allow_c,
                                         'result': got and os.path.relpath(got, base)})
-    # device boundary: fake st_dev above a level
-    with C.Scratch() as base:
-        base = os.path.realpath(base)
-        p = os.path.join(base, 'a', 'b', 'c')
-        os.makedirs(p)
-        for lvl_dir in (base, os.path.join(base, 'a'), os.path.join(base, 'a', 'b')):
-            C.write_manifest(os.path.join(lvl_dir, 'Manifest'), ['DATA x 1'])
-        for boundary in (os.path.join(base, 'a'), base):
-            def fake(pth, *a, _b=boundary, **k):
-                st = real_stat(pth, *a, **k)
-                rp = os.path.realpath(pth)
-                if rp == _b or (not rp.startswith(_b + os.sep) and rp != _b and _b.startswith(rp)):
-                    return os.stat_result((st.st_mode, st.st_ino, st.st_dev + 1000) + tuple(st)[3:])
-                if os.path.dirname(rp) == _b and os.path.basename(rp).startswith('Manifest'):
-                    return os.stat_result((st.st_mode, st.st_ino, st.st_dev + 1000) + tuple(st)[3:])
-                return st
+    # device boundary: every placement of the boundary x every presence mask of Manifests on the chain
+    for mask in itertools.product((False, True), repeat=3):
+        for bidx in (0, 1, 2):
+            with C.Scratch() as base:
+                base = os.path.realpath(base)
+                chain = [base, os.path.join(base, 'a'), os.path.join(base, 'a', 'b'), os.path.join(base, 'a', 'b', 'c')]
+                os.makedirs(chain[-1])
+                for lvl, present in enumerate(mask):
+                    if present:
+                        C.write_manifest(os.path.join(chain[lvl], 'Manifest'), ['DATA x 1'])
+                boundary = chain[bidx]          # this directory and everything above it is on another device
 
-            def fake_fstat(fd, _b=boundary):
-                st = real_fstat(fd)
-                try:
-                    rp = os.path.realpath('/proc/self/fd/%d' % fd)
-                except OSError:
-                    return st
-                if os.path.dirname(rp) == _b or _b.startswith(os.path.dirname(rp)):
+                def other_dev(rp, _b=boundary):
+                    return rp == _b or _b.startswith(rp + os.sep) or os.path.dirname(rp) == _b and os.path.basename(rp).startswith('Manifest') \
+                        or (os.path.dirname(rp) != rp and _b.startswith(os.path.dirname(rp) + os.sep) and os.path.basename(rp).startswith('Manifest'))
+
+                def bump(st):
                     return os.stat_result((st.st_mode, st.st_ino, st.st_dev + 1000) + tuple(st)[3:])
-                return st
-            os.stat, os.fstat = fake, fake_fstat
-            try:
-                got = find_top_level_manifest(p, allow_xdev=False)
-                got_x = find_top_level_manifest(p, allow_xdev=True)
-            except BaseException as e:
-                got = got_x = 'EXC:' + type(e).__name__
-            finally:
-                os.stat, os.fstat = real_stat, real_fstat
-            n += 2
-            inner = [os.path.join(base, 'a', 'b', 'Manifest'), os.path.join(base, 'a', 'Manifest')]
-            want = inner[0] if boundary == os.path.join(base, 'a') else inner[1]
-            if got is None or str(got).startswith('EXC') or os.path.realpath(got) != want:
-                viol.append({'what': 'C15 device boundary at %s: got %r, expected %r' % (os.path.relpath(boundary, base) or '.', got, want),
-                             'key': 'xdev', 'props': ['C15']})
+
+                def fake(pth, *a, **k):
+                    st = real_stat(pth, *a, **k)
+                    return bump(st) if other_dev(os.path.realpath(pth)) else st
+
+                def fake_fstat(fd):
+                    st = real_fstat(fd)
+                    try:
+                        rp = os.path.realpath('/proc/self/fd/%d' % fd)
+                    except OSError:
+                        return st
+                    return bump(st) if other_dev(rp) else st
+                os.stat, os.fstat = fake, fake_fstat
+                try:
+                    got = find_top_level_manifest(chain[-1], allow_xdev=False)
+                    got_x = find_top_level_manifest(chain[-1], allow_xdev=True)
+                except BaseException as e:
+                    got = got_x = 'EXC:' + type(e).__name__
+                finally:
+                    os.stat, os.fstat = real_stat, real_fstat
+                n += 2
+                distinct += 1
+                inside = [lvl for lvl in range(bidx + 1, 3) if mask[lvl]]
+                want = os.path.join(chain[min(inside)], 'Manifest') if inside else None
+                allm = [lvl for lvl in range(3) if mask[lvl]]
+                want_x = os.path.join(chain[min(allm)], 'Manifest') if allm else None
+                norm = lambda g: os.path.realpath(g) if isinstance(g, str) and not g.startswith('EXC') else g
+                if norm(got) != want:
+                    viol.append({'what': 'C15 one-file-system: Manifests at levels %s, device boundary at level %d: got %r, expected %r' % (
+                        [i for i, m_ in enumerate(mask) if m_], bidx, got, want), 'key': 'xdev', 'props': ['C15']})
+                if norm(got_x) != want_x:
+                    viol.append({'what': 'C15 crossing allowed: Manifests at levels %s, boundary %d: got %r, expected %r' % (
+                        [i for i, m_ in enumerate(mask) if m_], bidx, got_x, want_x), 'key': 'xdev-allowed', 'props': ['C15']})
     return viol, n, distinct, samples
 
 
